@@ -16,10 +16,13 @@ type State struct {
 	mem   map[string]Term // memory / ghost name -> current term
 	ov    map[ssa.Value]*Val
 	epoch int // 0: untouched memories equal their initial value; else: see Ctx.epochMem
+	br    []brTag // branch stack: reach == And(br[top].parent, br[top].cond) while untouched
 }
 
+type brTag struct{ parent, cond Term }
+
 func (s *State) clone() *State {
-	n := &State{reach: s.reach, mem: make(map[string]Term, len(s.mem)), epoch: s.epoch}
+	n := &State{reach: s.reach, mem: make(map[string]Term, len(s.mem)), epoch: s.epoch, br: append([]brTag(nil), s.br...)}
 	for k, v := range s.mem {
 		n.mem[k] = v
 	}
@@ -72,7 +75,7 @@ func (c *Ctx) declareMem(name, as string) {
 	_, vs := arrSorts(as)
 	if strings.HasPrefix(name, "MAPP_") {
 		c.usesQuant = true
-		c.assumes = append(c.assumes, Assume{declPos: len(c.decls), why: "fresh maps are empty",
+		c.assumes = append(c.assumes, Assume{declPos: len(c.decls), heapAx: true, why: "fresh maps are empty",
 			t: raw(fmt.Sprintf("(forall ((r Ref)) (! (=> (>= (rroot r) %d) (= (select %s r) ((as const %s) false))) :pattern ((select %s r))))",
 				birthBase, n, vs, n), SBool)})
 		return
@@ -144,12 +147,12 @@ func (c *Ctx) epochMem(e int, name string) Term {
 func (c *Ctx) memAxioms(m Term, valSort string, bound int, name string) {
 	if z, ok := c.zeroOfSort(valSort); ok {
 		c.usesQuant = true
-		c.assumes = append(c.assumes, Assume{declPos: len(c.decls), why: "unallocated cells are zero: " + name,
+		c.assumes = append(c.assumes, Assume{declPos: len(c.decls), heapAx: true, why: "unallocated cells are zero: " + name,
 			t: raw(fmt.Sprintf("(forall ((r Ref)) (! (=> (>= (rroot r) %d) (= (select %s r) %s)) :pattern ((select %s r))))",
 				bound, m.S, z.S, m.S), SBool)})
 	}
 	if valSort == SRef {
-		c.assumes = append(c.assumes, Assume{declPos: len(c.decls), why: "stored references are allocated: " + name,
+		c.assumes = append(c.assumes, Assume{declPos: len(c.decls), heapAx: true, why: "stored references are allocated: " + name,
 			t: raw(fmt.Sprintf("(forall ((r Ref)) (! (and (< (rroot (select %s r)) %d) (>= (rroot (select %s r)) 0)) :pattern ((select %s r))))",
 				m.S, bound, m.S, m.S), SBool)})
 	}
@@ -296,6 +299,20 @@ func (c *Ctx) mergeStates(sts []*State) *State {
 		return live[0].clone()
 	}
 	out := &State{mem: map[string]Term{}, epoch: live[0].epoch}
+	// diamond: two arms of the same branch re-join => the reach condition is the parent's again
+	diamond := false
+	if len(live) == 2 && len(live[0].br) > 0 && len(live[0].br) == len(live[1].br) {
+		a, b := live[0].br[len(live[0].br)-1], live[1].br[len(live[1].br)-1]
+		if a.parent.S == b.parent.S && (Not(a.cond).S == b.cond.S || Not(b.cond).S == a.cond.S) {
+			diamond = true
+			out.reach = a.parent
+			out.br = append([]brTag(nil), live[0].br[:len(live[0].br)-1]...)
+			// select on the local branch literal instead of the full path condition
+			l0 := *live[0]
+			l0.reach = a.cond
+			live = []*State{&l0, live[1]}
+		}
+	}
 	for _, s := range live {
 		if s.epoch != out.epoch {
 			var parts []epochPart
@@ -311,7 +328,9 @@ func (c *Ctx) mergeStates(sts []*State) *State {
 	for _, s := range live {
 		rs = append(rs, s.reach)
 	}
-	out.reach = c.Def("reach", Or(rs...))
+	if !diamond {
+		out.reach = c.Def("reach", Or(rs...))
+	}
 	names := map[string]bool{}
 	for _, s := range live {
 		for k := range s.mem {
@@ -367,4 +386,12 @@ func (c *Ctx) mergeStates(sts []*State) *State {
 		}
 	}
 	return out
+}
+
+// adopt continues this state with the contents of r (after a call or a merge).
+func (s *State) adopt(r *State) {
+	if r.reach.S != s.reach.S {
+		s.br = nil
+	}
+	s.reach, s.mem, s.epoch = r.reach, r.mem, r.epoch
 }
